@@ -72,11 +72,43 @@ def main():
             except Exception as e:
                 ctx.fail("rule %s crashed: %s: %s" % (rule_fn.__name__, type(e).__name__, e))
                 traceback.print_exc()
+    if tier == "thorough" and not only and not a.no_evidence:
+        _selftest(ctx, prop)
     if only:
         ctx.rules = {k: v for k, v in ctx.rules.items()}
         for r in ctx.rules.values():
             r["floor"] = 0
     return report.finish(ctx, mod.LEVEL_TEXT, mod.ASSUMPTIONS)
+
+
+def _selftest(ctx, prop):
+    """thorough tier: prove the rules of this property are armed.  Every mutant of selftest/mutants.json for the property
+    (a small edit of crab that still compiles and breaks one rule instance) must be reported, every benign refactor must
+    stay silent.  Mutants are applied to scratch copies of /repo's sources (never to /repo); nothing is executed.  A rule that
+    misses its mutant or fires on a benign refactor makes the run ANALYSIS-BROKEN (exit 2): a checker fault, not a violation."""
+    import subprocess
+    jobs = os.environ.get("VERIF_SELFTEST_JOBS", "4")
+    p = subprocess.run([sys.executable, os.path.join(HERE, "selftest", "run.py"), "--prop", prop, "--jobs", jobs],
+                       stdout=subprocess.PIPE, stderr=subprocess.STDOUT, universal_newlines=True)
+    rows = [l.split() for l in p.stdout.splitlines() if l[:5].strip() in ("OK", "FAIL", "STALE")]
+    res = {"mutants_total": 0, "mutants_reported": 0, "benign_total": 0, "benign_silent": 0, "failed": []}
+    for r in rows:
+        status, mid, expect = r[0], r[1], r[-1]
+        if expect == "expect=violation":
+            res["mutants_total"] += 1
+            res["mutants_reported"] += status == "OK"
+        elif expect == "expect=silent":
+            res["benign_total"] += 1
+            res["benign_silent"] += status == "OK"
+        if status != "OK":
+            res["failed"].append("%s (%s)" % (mid, status))
+    ctx.extra["selftest"] = res
+    print("selftest %s: %d/%d mutants reported, %d/%d benign refactors silent" %
+          (prop, res["mutants_reported"], res["mutants_total"], res["benign_silent"], res["benign_total"]))
+    for f in res["failed"]:
+        ctx.fail("self-test: %s not as expected (checker fault)" % f)
+    if not rows:
+        ctx.fail("self-test: no mutant registered for %s" % prop)
 
 
 def _broken_evidence(prop, tier, seed, msg):
